@@ -102,6 +102,25 @@ func applyTimeRange(candidates []treasure.Treasure, beaconType hydra.BeaconType,
 	return out
 }
 
+// onlyIndexed keeps the candidates that the beacon of the given type lists:
+// a time beacon holds only treasures that carry that timestamp (see
+// swamp.treasuresForBeacon), so a record without it is not part of an ordered
+// read on that index, whichever route answers the query.
+func onlyIndexed(candidates []treasure.Treasure, beaconType hydra.BeaconType) []treasure.Treasure {
+	switch beaconType {
+	case hydra.BeaconTypeCreationTime, hydra.BeaconTypeUpdateTime, hydra.BeaconTypeExpirationTime:
+	default:
+		return candidates
+	}
+	out := candidates[:0]
+	for _, t := range candidates {
+		if beaconTimeOf(t, beaconType) != 0 {
+			out = append(out, t)
+		}
+	}
+	return out
+}
+
 func beaconTimeOf(t treasure.Treasure, beaconType hydra.BeaconType) int64 {
 	switch beaconType {
 	case hydra.BeaconTypeCreationTime:
